@@ -12,7 +12,7 @@ FUNCS = [G + "Generator." + f for f in ("__init__", "source", "get_direction", "
 
 def setup(rep):
     runner.hash_functions(rep, FUNCS)
-    rep.min_obligations = 120
+    rep.min_obligations = 400
     rep.clause("uniform-cylinder", "P", "get_vertex maps three U[0,1) draws into the cylinder with constant |Jacobian| = pi dr^2 dz "
                "(A3 change of variables, A7 idealised RNG)")
     rep.clause("uniform-box", "A", "RectangularGenerator.get_vertex is np.random.uniform(low, high): box-uniform by the assumed "
@@ -20,19 +20,24 @@ def setup(rep):
     rep.clause("isotropic", "P", "get_direction is a unit vector with uniform cos(theta) and constant area element 4 pi")
     rep.clause("flavour-ratios", "P", "get_particle_type partitions (r1, r2) by the cumulative flavour thresholds and the nu/nubar "
                "ratios 0.78/0.61/0.61 (cosmogenic) or 0.5 (astrophysical); aliases resolve; other sources are rejected")
-    rep.clause("exit-points-box", "P", "for a vertex strictly inside and each direction sign pattern checked, both points lie on the "
-               "boundary, on the line of flight, enter behind and exit ahead of the vertex (over the reals)")
-    rep.clause("exit-points-cylinder", "P", "same for the cylinder (side, top and bottom cases)")
+    rep.clause("exit-points-box", "P", "for a vertex strictly inside and every non-zero direction (all 26 sign patterns of its "
+               "components, one harness each - they partition R^3 minus the origin), both points lie on the boundary, on the line "
+               "of flight, enter behind and exit ahead of the vertex (over the reals)")
+    rep.clause("exit-points-cylinder", "P", "same for the cylinder (side, top and bottom cases), 24 of the 26 sign patterns: every "
+               "direction that is not exactly vertical")
+    rep.clause("exit-points-cylinder-vertical", "B", "exactly vertical directions in the cylinder go through a division by zero whose "
+               "IEEE result (+-inf) the code relies on - outside the real-number model (A1); native sampling against the points "
+               "straight above / below the vertex")
     rep.clause("weights", "P", "survival = exp(-slant_depth(vertex, -direction)/L), interaction = (chord/L_ice) exp(-travel/L_ice), "
                "L_ice = L/0.92/100")
     rep.clause("shadow-and-count", "P", "count +1 per throw including rejected ones; accept iff fresh U < survival (recursion "
                "checked against its own contract)")
-    rep.clause("list-generator", "B", "k-th call returns events[k mod n], stops when loop is False, count arithmetic - for any "
-               "symbolic state, list lengths 1..3")
+    rep.clause("list-generator-any-length", "P", "for an event list of any length n >= 1 (symbolic) and any symbolic state: the k-th "
+               "throw takes exactly one element, at position k mod n; the position and count advance by one; a non-looping "
+               "generator stops exactly when k >= n and leaves its state")
+    rep.clause("list-generator", "B", "the same with concrete lists of length 1..3 (identity of the returned element), count setter")
     rep.clause("energies-from-source", "P", "create_event calls get_energy once per throw (path exploration of create_event)")
     rep.clause("grazing-directions", "N", "float overflow for directions with a tiny component is outside the real-number model")
-    rep.bounded.append("direction sign patterns for exit points: 7 of 26 (box) and 4 (cylinder) in the quick tier")
-    rep.bounded.append("ListGenerator list length in {1,2,3}")
     rep.assume("A1 floats are reals; A2 axioms for sqrt/sin/cos/exp; A3 change of variables; A7 RNG draws are fresh independent U[0,1)")
     rep.assume("A13 symbolic differentiation")
 
